@@ -247,6 +247,18 @@ EXTENDING = [
     ('a or ((b instance of number) and c)', 'a or b instance of number and c'),
     ('(for x in a return x)[b]', '(for x in a return x)[b]'),
     ('(if a then b else c) + d', '(if a then b else c) + d'),
+    # unary tests (the start symbol of input entries; `UT:` selects it in the driver): `not` is the negation keyword only as the FIRST token,
+    # everywhere else not(...) is the built-in function; a comma separates tests
+    ('UT:(1), (not((2)))', 'UT:1, not(2)'),
+    ('UT:(a), (b), (not((c)))', 'UT:a, b, not(c)'),
+    ('UT:not((1), (2))', 'UT:not(1, 2)'),
+    ('UT:not((a), (not((b))))', 'UT:not(a, not(b))'),
+    ('UT:< a, > b', 'UT:< a, > b'),
+    ('UT:<= a, >= b, (c)', 'UT:<= a, >= b, c'),
+    ('UT:[a..b], (c)', 'UT:[a..b], c'),
+    ('UT:(a + b), ((c))', 'UT:a + b, c'),
+    ('UT:-', 'UT:-'),
+    ('UT:(a), ((not((b))) = (c))', 'UT:a, not(b) = c'),
 ]
 
 
